@@ -96,8 +96,8 @@ def run(ctx, report):
                     r_m.finding(f"{f.short}->{d.name}", f"{f.short} (reachable at run time) calls registry.{d.name}, which rewrites shared registry state", f"{f.module.relpath}:{n.lineno}")
     from ..intrinsics import _module_level_calls
     for q in IMPORT_ONLY[:3]:
-        for mod, call in _module_level_calls(prog, q):
-            r_m.instance({"module-level call": f"{mod.relpath}:{call.lineno}", "callee": q.split('.')[-1]})
+        for mod, call, c in _module_level_calls(prog, q):
+            r_m.instance({"import-time call": f"{mod.relpath}:{c.lineno}", "callee": q.split('.')[-1]})
 
     # ------------------------------------------------------------------ R15-state
     r_s = report.rule("R15-state", floor=55, what="no registered algorithm reads instance state that the current call has not written")
